@@ -146,6 +146,60 @@ def opPsd (op : String) : P String := do
         | .error e => s!"err {e.name}"
   | _ => throw s!"unknown op {op}"
 
+def renderPairs (l : List (Nat × Nat)) : String :=
+  " ".intercalate (l.map fun (a, b) => s!"{a} {b}")
+
+def readRounds : P (List (List Draw)) := do
+  let nr ← nat
+  let mut rounds : List (List Draw) := []
+  for _ in [0:nr] do
+    let len ← nat
+    let mut r : List Draw := []
+    for _ in [0:len] do
+      let a ← nat; let b ← nat
+      r := r ++ [⟨a, b⟩]
+    rounds := rounds ++ [r]
+  return rounds
+
+/-- C07 ops: replay of the recorded random draws through the model -/
+def opConstraints (op : String) : P String := do
+  match op with
+  | "pairs" => do
+      let same ← bool; let n ← nat; let nl ← nat; let labels ← intArr nl
+      let rounds ← readRounds; finish
+      match pairsOf labels.toList same n rounds with
+      | none => return "invalid-oracle"
+      | some (qs, w) => return s!"ok {qs.length} {if w then 1 else 0} {renderPairs qs}"
+  | "chunks" => do
+      let nl ← nat; let labels ← intArr nl; let nChunks ← nat; let size ← nat
+      let nrs ← nat; let rs ← natArr nrs
+      let ncs ← nat
+      let mut cs : List (List Nat) := []
+      for _ in [0:ncs] do
+        let len ← nat
+        cs := cs ++ [(← natArr len).toList]
+      finish
+      match chunksOf labels.toList nChunks size rs.toList cs with
+      | none => return "invalid-oracle"
+      | some (.error ()) => return "err ValueError"
+      | some (.ok chunks) =>
+        return s!"ok {chunks.length} " ++ " ".intercalate (chunks.map fun c => " ".intercalate (c.map toString))
+  | "knn_class" => do
+      let nm ← nat; let members ← natArr nm; let kg ← nat; let ki ← nat
+      let mut gen : List (List Nat) := []
+      for _ in [0:nm] do gen := gen ++ [(← natArr kg).toList]
+      let mut imp : List (List Nat) := []
+      for _ in [0:nm] do imp := imp ++ [(← natArr ki).toList]
+      finish
+      let ts := classTriplets members.toList gen imp
+      return s!"ok {ts.length} " ++ " ".intercalate (ts.map fun (a, b, c) => s!"{a} {b} {c}")
+  | "knn_clip" => do
+      let kg ← nat; let ki ← nat; let lenInput ← nat; let count ← nat; finish
+      let (g, wg) := clipGenuine kg count
+      let (i, wi) := clipImpostor ki lenInput count
+      return s!"ok {g} {if wg then 1 else 0} {i} {if wi then 1 else 0}"
+  | _ => throw s!"unknown op {op}"
+
 def optInt : P (Option Int) := do
   let t ← next
   if t == "none" then return none
@@ -182,6 +236,7 @@ def dispatch : P String := do
   | "predict_pair" | "predict_trip" | "predict_quad" | "score_frac" | "auc" => opClassify Rat op
   | "check_n_components" | "auto_select_init" | "check_tuple_size" => opGen op
   | "sdp_check" | "cfm_eig" | "cfm_diag" | "pinv_eig" | "init_metric" => opPsd op
+  | "pairs" | "chunks" | "knn_class" | "knn_clip" => opConstraints op
   | "calib" => opCalib
   | "validate_calib" => opValidateCalib
   | _ => throw s!"unknown op {op}"
